@@ -20,6 +20,33 @@ CHECKS = {
     ),
 }
 
+CHECKS.update({
+    'C01': dict(
+        technique='explicit-state BFS over operation histories (stateless to depth 3, canonical-state-merged deeper) on real chains sharing one store; provenance-term oracle',
+        text='Bounded exhaustive exploration of ALL histories of chain constructions from config variants that share one data directory, value requests on every task, '
+             'task forcing, injected run failures and restarts, up to a stated depth, on the real library. Every returned value carries a provenance term (task, parameter '
+             'values, recursively the input terms) and is compared with an independent evaluation of the requesting chain\'s own configuration, so a stale or foreign '
+             'result is never equal to the right one. Worlds cover plain chains, diamonds, the same config file mounted under two namespaces with per-namespace context, '
+             'two-level uses, multi-config parts, optional/pattern inputs, config-vs-context values and every storable data class.',
+        note='Trusts tcv/refmodel.py (reference evaluator) and the generated run() bodies; pipelines have <= 12 tasks, histories <= 4 (quick) / 5 (thorough) operations, <= 2 live chains; in-process restart (objects dropped), real interpreter restarts only in the process leg.',
+        design='DESIGN.md §4 C01', engine='worlds+refmodel+histories'),
+    'C04': dict(
+        technique='explicit-state BFS over force-free histories; invocation-log delta vs predicted run list after every step',
+        text='Bounded exhaustive exploration of all histories of chain construction, value requests, inspection calls and restarts (two live chains over one store) '
+             'with, after EVERY step, the invocation log written by the generated run() methods compared to the reference prediction of which computations must run '
+             '(memory, store, lazy pull order); construction/inspection must run nothing; no storage location runs twice. Includes lazily pulled inputs, in-memory tasks, '
+             'unrelated configs sharing one computation and legitimately empty results.',
+        note='Trusts tcv/histories.StoreModel; canonical-state merging beyond the stateless depth (state includes a generic image of task-object attributes so hidden caches are not merged away).',
+        design='DESIGN.md §4 C04', engine='worlds+refmodel+histories'),
+    'C17': dict(
+        technique='exhaustive enumeration of all worker completion orders (gate controller on the real thread pool) x bounded input family; sequential-map oracle',
+        text='For every member of a bounded family (n<=4 quick / 6 thorough, threads 1..4, chunk sizes, sort flag, list/generator input, raising position) EVERY completion '
+             'order of the pool workers is enumerated by a controller that decides which in-flight call finishes next on the real parallel_map implementations; result '
+             'must equal the sequential map, f called once per element, exceptions propagate. chunked: every (length, size, iterable kind).',
+        note='Completion order is owned via gates in the mapped function and a proxy of asyncio.as_completed bound into the library module; OS thread start order inside the pool is not varied (does not affect results once completion order is fixed).',
+        design='DESIGN.md §4 C17', engine='gates'),
+})
+
 PENDING_REASON = 'check not built yet in this round (planned per DESIGN.md §4; technique applies)'
 
 
@@ -63,6 +90,10 @@ def manifest():
 
 
 ENGINES = [
+    {'name': 'worlds', 'path': 'tcv/worlds.py, tcv/families.py', 'serves_properties': ['C01', 'C04'], 'kind_free_text': 'generated pipelines/configs/contexts with provenance terms, invocation log, fault plan'},
+    {'name': 'refmodel', 'path': 'tcv/refmodel.py', 'serves_properties': ['C01', 'C04'], 'kind_free_text': 'independent reference semantics: mounts, precedence, edges, terms, frozen 1.4.0 key'},
+    {'name': 'histories', 'path': 'tcv/histories.py', 'serves_properties': ['C01', 'C04'], 'kind_free_text': 'explicit-state BFS over operation histories with replay on fresh stores and canonical-state merging'},
+    {'name': 'gates', 'path': 'tcv/gates.py', 'serves_properties': ['C17'], 'kind_free_text': 'completion-order controller for thread pools, stateless DFS over choice sequences'},
     {'name': 'enumvals', 'path': 'tcv/names.py, tcv/enumvals.py', 'serves_properties': ['C10'], 'kind_free_text': 'bounded exhaustive generators (name sets, values, strings, call spellings)'},
 ]
 
